@@ -1703,9 +1703,9 @@ class _Date(Vector):
 			if len(self) != len(other):
 				raise ValueError(f"Length mismatch: {len(self)} != {len(other)}")
 			# If it's not a Vector or Constant, don't apply date compare logic
-			return Vector(tuple(bool(op(x, y)) for x, y in zip(self, other, strict=True)), dtype=DataType(bool))
+			return Vector(tuple(False if (x is None or y is None) else bool(op(x, y)) for x, y in zip(self, other, strict=True)), dtype=DataType(bool))
 		elif isinstance(other, str):
-			return Vector(tuple(bool(op(x, date.fromisoformat(other))) for x in self), dtype=DataType(bool))
+			return Vector(tuple(False if x is None else bool(op(x, date.fromisoformat(other))) for x in self), dtype=DataType(bool))
 		elif isinstance(other, datetime):
 			return Vector(tuple(bool(op(datetime.combine(x, datetime.time(0, 0)), other)) for x in self), dtype=DataType(bool))
 		# finally, 
